@@ -57,7 +57,7 @@ fn run_one(
     lim: Limits,
     flags: ClvmFlags,
     budget: u64,
-) -> Option<(Outcome, crate::outcome::Counts, Vec<u8>)> {
+) -> Option<(Outcome, crate::outcome::Counts, Vec<u8>, usize)> {
     let (mut a, p, e) = setup(f, prog, env, plan_seed, vary, lim)?;
     let before = counts(&a);
     clvmr::verif_hooks::take_events();
@@ -65,12 +65,23 @@ fn run_one(
     let o = run_chia(&mut a, flags, p, e, budget);
     clvmr::verif_hooks::set_recording(false);
     let mut kinds = Vec::new();
+    // bytes copied by substrings of inline atoms that are still counted at the end of the run: copies made
+    // inside a softfork guard are dropped again by the guard's restore
+    let mut copies: Vec<usize> = vec![0];
     for ev in clvmr::verif_hooks::take_events() {
-        if let clvmr::verif_hooks::Event::GcRestore { kind } = ev {
-            kinds.push(kind);
+        match ev {
+            clvmr::verif_hooks::Event::GcRestore { kind } => kinds.push(kind),
+            clvmr::verif_hooks::Event::InlineSubstrCopy { len } => *copies.last_mut().unwrap() += len,
+            clvmr::verif_hooks::Event::GuardEnter { .. } => copies.push(0),
+            clvmr::verif_hooks::Event::GuardExit { .. } => {
+                if copies.len() > 1 {
+                    copies.pop();
+                }
+            }
         }
     }
-    Some((o, before, kinds))
+    let copied: usize = copies.iter().sum();
+    Some((o, before, kinds, copied))
 }
 
 #[allow(clippy::too_many_arguments)]
@@ -86,8 +97,8 @@ fn compare(
     budget: u64,
 ) -> Option<Outcome> {
     let base = base & !ClvmFlags::ENABLE_GC;
-    let (o1, _b1, _) = run_one(f, prog, env, plan_seed, vary, lim, base, budget)?;
-    let (o2, _b2, kinds) =
+    let (o1, _b1, _, copied1) = run_one(f, prog, env, plan_seed, vary, lim, base, budget)?;
+    let (o2, _b2, kinds, copied2) =
         run_one(f, prog, env, plan_seed, vary, lim, base | ClvmFlags::ENABLE_GC, budget)?;
     ctx.eval();
     for k in &kinds {
@@ -124,7 +135,48 @@ fn compare(
         });
     }
     if !same_res || !same_counts || matches!(o1.res, Res::Panic(_)) || matches!(o2.res, Res::Panic(_)) {
-        let sig = if !same_res { "gc-changes-outcome" } else { "gc-changes-counts" };
+        // Known consequence of the C12 finding (substr of an inline atom copies bytes and counts them): a
+        // reclaimed atom may come back inline, so the two runs copy different numbers of bytes. Recognised
+        // only when the heap sizes differ by exactly the difference in copied bytes and nothing else differs.
+        let heap_only = same_res
+            && o1.counts.atoms == o2.counts.atoms
+            && o1.counts.pairs == o2.counts.pairs
+            && !matches!(o1.res, Res::Panic(_))
+            && !matches!(o2.res, Res::Panic(_));
+        let explained = heap_only
+            && copied1 != copied2
+            && o1.counts.heap as i128 - copied1 as i128 == o2.counts.heap as i128 - copied2 as i128;
+        // the same finding seen through a heap limit: exactly one run is out of memory, and without the heap
+        // limit the two runs differ only by the explained inline-substr bytes, with the limit between the two
+        // final heap sizes
+        let oom = |o: &Outcome| matches!(&o.res, Res::Err { variant, .. } if variant == "OutOfMemory");
+        let mut window = false;
+        if !same_res && lim.heap.is_some() && (oom(&o1) != oom(&o2)) {
+            let nolim = Limits { heap: None, ..lim };
+            if let (Some((u1, _, _, c1)), Some((u2, _, _, c2))) = (
+                run_one(f, prog, env, plan_seed, vary, nolim, base, budget),
+                run_one(f, prog, env, plan_seed, vary, nolim, base | ClvmFlags::ENABLE_GC, budget),
+            ) {
+                let h = lim.heap.unwrap();
+                let (lo, hi) = (u1.counts.heap.min(u2.counts.heap), u1.counts.heap.max(u2.counts.heap));
+                window = u1.res == u2.res
+                    && u1.counts.atoms == u2.counts.atoms
+                    && u1.counts.pairs == u2.counts.pairs
+                    && c1 != c2
+                    && u1.counts.heap as i128 - c1 as i128 == u2.counts.heap as i128 - c2 as i128
+                    && lo <= h
+                    && h < hi;
+            }
+        }
+        let sig = if window {
+            "gc-changes-outcome/heap-limit-between-sizes-that-differ-by-inline-substr-copies"
+        } else if !same_res {
+            "gc-changes-outcome"
+        } else if explained {
+            "gc-changes-counts/heap-only/equals-difference-in-inline-substr-copies"
+        } else {
+            "gc-changes-counts"
+        };
         let mut d = prog_json(f, prog, env);
         d["flags"] = flags_json(base);
         d["budget"] = json!(budget);
@@ -134,14 +186,31 @@ fn compare(
         d["with_gc"] = o2.res.to_json();
         d["counts_without_gc"] = o1.counts.to_json();
         d["counts_with_gc"] = o2.counts.to_json();
+        d["inline_substr_copied_bytes"] = json!([copied1, copied2]);
         ctx.violation(sig, d);
     }
     Some(o1)
 }
 
+/// a room that is either anywhere below the need or right at it (exact, one short, one spare)
+fn near(r: &mut Rng, need: usize) -> usize {
+    match r.below(4) {
+        0 => need,
+        1 => need.saturating_sub(1),
+        2 => need + 1,
+        _ => r.usize(need + 2),
+    }
+}
+
 fn one_case(ctx: &mut Ctx, r: &mut Rng, f: &Forest, prog: Id, env: Id, base: ClvmFlags) {
-    let plan_seed = r.u64();
     let vary = if r.chance(1, 2) { 0 } else { r.range(1, 10) };
+    one_case_repr(ctx, r, f, prog, env, base, vary)
+}
+
+/// `vary`: chance in 16 that an atom is stored in a non-default representation (an operator atom stored on
+/// the heap is not a reclamation candidate, so 0 keeps every candidate)
+fn one_case_repr(ctx: &mut Ctx, r: &mut Rng, f: &Forest, prog: Id, env: Id, base: ClvmFlags, vary: u64) {
+    let plan_seed = r.u64();
     let nolim = Limits { heap: None, atom_room: None, pair_room: None };
     // baseline at unlimited budget to learn the cost and the allocation need
     let Some(o) = compare(ctx, f, prog, env, base, plan_seed, vary, nolim, 0) else {
@@ -168,16 +237,16 @@ fn one_case(ctx: &mut Ctx, r: &mut Rng, f: &Forest, prog: Id, env: Id, base: Clv
     let need_pairs = o.counts.pairs.saturating_sub(c0.pairs);
     for _ in 0..2 {
         let lim = match r.below(3) {
-            0 => Limits { heap: Some(c0.heap + r.usize(need_heap + 2)), atom_room: None, pair_room: None },
-            1 => Limits { heap: None, atom_room: Some(r.usize(need_atoms + 2)), pair_room: None },
-            _ => Limits { heap: None, atom_room: None, pair_room: Some(r.usize(need_pairs + 2)) },
+            0 => Limits { heap: Some(c0.heap + near(r, need_heap)), atom_room: None, pair_room: None },
+            1 => Limits { heap: None, atom_room: Some(near(r, need_atoms)), pair_room: None },
+            _ => Limits { heap: None, atom_room: None, pair_room: Some(near(r, need_pairs)) },
         };
         compare(ctx, f, prog, env, base, plan_seed, vary, lim, 0);
     }
 }
 
 /// directed programs that force each `MaybeRestore` outcome
-fn directed(f: &mut Forest) -> Vec<(Id, Id)> {
+pub fn directed(f: &mut Forest) -> Vec<(Id, Id)> {
     let big = f.atom(&vec![0x61; 700]);
     let big2 = f.atom(&vec![0x62; 900]);
     let env = f.list(&[big, big2]);
@@ -210,6 +279,11 @@ fn directed(f: &mut Forest) -> Vec<(Id, Id)> {
         // zero-length results
         "(a (q . (12 2 (q . 3) (q . 3))) (c (concat (f 1) (f (r 1))) ()))",
         "(a (q . (12 2 (q . 3) (q . 3))) (c (f 1) (c (concat (f 1) (f (r 1))) ())))",
+        // reclaimed atom that fits a small integer comes back inline; substrings of it afterwards
+        "(substr (a (q . (f (c (concat (q . 1) (q . 0x80)) (concat 1 1)))) (f 1)) (q . 1) (q . 2))",
+        "(substr (a (q . (f (c (concat (q . 0x0080) (q . 0x0001)) (concat 1 1)))) (f 1)) (q . 0) (q . 1))",
+        "(substr (a (q . (f (c (concat (q . 1) (q . 0x7f)) (concat 1 1)))) (f 1)) (q . 1) (q . 2))",
+        "(concat (substr (a (q . (f (c (concat (q . 1) (q . 0x80)) (concat 1 1)))) (f 1)) (q . 0) (q . 1)) (f 1))",
         // failing inside garbage
         "(+ (strlen (concat (f 1) (f (r 1)))) (x))",
     ];
@@ -238,6 +312,7 @@ pub fn run(ctx: &mut Ctx) {
                 continue;
             }
             let mut r = ctx.rng(cid);
+            one_case_repr(ctx, &mut r, &f, *p, *e, *b, 0);
             one_case(ctx, &mut r, &f, *p, *e, *b);
         }
     }
